@@ -122,6 +122,15 @@ const char *RAW_CORPUS[] = {
     "x := RUN nosuch WITH 1 END",
     "x := 1 y := 2",
     "x := 1 PROGRAM f IN a DO a := 1 END",
+    "LOOP x DO PROGRAM f DO x0 := 1",
+    "LOOP x DO PROGRAM f DO x0 := 1 END",
+    "WHILE x != 0 DO PROGRAM f IN a DO a := 1 END x := 1",
+    "PROGRAM f DO PROGRAM g DO x0 := 1 END END x := RUN g WITH END",
+    "LOOP x DO DEFINE a AS x := 1 END DEFINE a",
+    "LOOP x DO include \"main.theo\"",
+    "x := 1 ; LOOP x DO y := 1 ; PROGRAM",
+    "LOOP x DO y := 1 ; PROGRAM f",
+    "PROGRAM f DO LOOP x0 DO PROGRAM",
     "x : = 1",
     "include",
     "include x",
@@ -207,6 +216,7 @@ struct WorkMonitor : HookSink {
   bool growth_abandoned = false;
   bool slow_abandoned = false;   // legitimately bounded but too slow to be worth simulating (e.g. cubic macro nesting)
   long long total_events = 0, total_cap = 60000000;
+  long long lr_total = 0, lr_total_cap = (long long)4e18;   // LR driver actions in one compile (about 13 us each under the sanitizers)
   long long pass_cost = 0, pass_cost_cap = 50000000;   // sum over passes of (stream length)^2: proxy for the copying a pass does
   bool enforce = true;
 
@@ -237,7 +247,10 @@ struct WorkMonitor : HookSink {
         lr_in_start = 0; lr_limit = 32 * (b - a + 16);
         break;
       }
-      case LR_ACTION: lr_in_start++; if (lr_in_start > lr_limit && lr_limit > 0) over(site, lr_in_start, lr_limit); break;
+      case LR_ACTION:
+        lr_in_start++; if (lr_in_start > lr_limit && lr_limit > 0) over(site, lr_in_start, lr_limit);
+        if (++lr_total > lr_total_cap && enforce) { slow_abandoned = true; throw SimAbort(); }
+        break;
       case LR_FIRST_ROUND: case LR_HULL_ROUND: case LR_ELEMENTS: {
         table_events++;
         long long lim = (ndefs_bound + 4) * 2 * (4000000LL + 20000LL * bytes);
@@ -340,13 +353,33 @@ struct FsWorld {
         // the a-th integer literal of the program text (as the printer marked it) gets b digits
         const Project &p = plan.proj;
         std::vector<const PTok *> lits;
-        bool in_def = false;
+        bool in_def = false, after_as = false;
+        // a literal in the body of a definition counts when the macro is used somewhere (its key word occurs outside every
+        // definition): the expansion then carries the literal into the program
+        std::set<std::string> used_words;
+        if (knob("body_lits", 0) && p.has_ast) {
+          std::function<void(const Val &)> uv = [&](const Val &v) { if (v.k == Val::DBL) used_words.insert("@"); for (auto &a : v.args) uv(a); };
+          std::function<void(const std::vector<Stmt> &)> ub = [&](const std::vector<Stmt> &b) {
+            for (auto &st : b) {
+              if (st.k == Stmt::NOP) used_words.insert("NOP");
+              if (st.k == Stmt::TWICE) used_words.insert("TWICE");
+              if (st.k == Stmt::ITE) used_words.insert("IF");
+              uv(st.val); ub(st.body); ub(st.body2);
+            }
+          };
+          for (auto &r : p.ast.defs) ub(r.body);
+          ub(p.ast.main);
+        }
+        std::string def_key;
         for (auto &t : p.toks) {
           std::string u = t.text; for (auto &c : u) c = (char)toupper((unsigned char)c);
-          if (u == "DEFINE" || u == "DEF") in_def = true;
+          if (u == "DEFINE" || u == "DEF") { in_def = true; after_as = false; def_key.clear(); }
+          else if (in_def && !after_as && u == "AS") after_as = true;
+          else if (in_def && !after_as && def_key.empty() && u != "PRIORITY" && u != "PRIO" && t.kind != 1 && t.text[0] != '<') def_key = u;
           bool prio_or_slot = false;
           if (t.kind == 1 && in_def && &t > &p.toks[0]) { std::string pu = (&t - 1)->text; for (auto &c : pu) c = (char)toupper((unsigned char)c); prio_or_slot = pu == "PRIORITY" || pu == "PRIO"; }
-          if (t.kind == 1 && (!in_def || prio_or_slot)) lits.push_back(&t);
+          bool used_body = in_def && after_as && !def_key.empty() && used_words.count(def_key) > 0;
+          if (t.kind == 1 && (!in_def || prio_or_slot || used_body)) { lits.push_back(&t); }
           if (u == "END DEFINE" || u == "ENDDEF") in_def = false;
         }
         if (lits.empty()) continue;
@@ -371,6 +404,7 @@ struct FsWorld {
               else if (nd % 3 == 0) big = EDGE[(size_t)(op.a / 7 + nd) % 12];
               else { big = "9"; for (int k = 1; k < nd; k++) big += (char)('0' + (k * 7) % 10); }
               f.replace(s.a, s.b - s.a, big);
+              if (big == "2147483647") { fired("literal_at_word_limit"); break; }   // 2^31-1 itself: accepting or rejecting it are both within the property
               fired("literal_inflate");
               break;
             }
@@ -408,6 +442,8 @@ struct FsWorld {
     size_t defs = 2;
     for (auto &kv : files) { bytes += (long long)kv.second.size(); defs += count_word_ci(kv.second, "def"); }
     mon.bytes = bytes; mon.ndefs_bound = (long long)defs; mon.budget = 1024;
+    // of 11 600 quick C02 runs 49 needed more than 300 000 LR actions and 48 of those ended abandoned at the other caps anyway
+    if (mon.lr_total_cap > 400000) mon.lr_total_cap = 400000;
     mon.scan_limit = (bytes + 64) * 64;
     leaked = false; leak_bytes = 0;
     uint64_t before = measure_leak ? allocated_bytes() : 0;
@@ -770,11 +806,16 @@ struct FsWorld {
     for (auto &kv : files) mon.bytes += (long long)kv.second.size();
     MacroApplicationResult res;
     bool aborted = false;
+    bool big = knob("big", 0) != 0;   // large-stream regime: the cost caps are lifted for this run, the bounds stay
+    long long keep_cap = g_pass_cost_cap;
+    if (big) { mon.pass_cost_cap = (long long)4e18; g_pass_cost_cap = (long long)4e18; mon.total_cap = 400000000; ctx.stats.inc("probe_large_stream_expansion"); }
     {
       HookGuard hg(&mon);
       try { res = Theo::apply_macros(mer.tokens, mer.macros, (unsigned)budget); } catch (SimAbort &) { aborted = true; }
     }
     set_phase(PH_HARNESS);
+    g_pass_cost_cap = keep_cap;
+    if (big) ctx.stats.max("max_stream_length", mon.max_len);
     long long passes = mon.cnt[Theo::verif::MACRO_PASS];
     ctx.ev("applied", passes, mon.final_len, (long long)res.errors.size());
     ctx.sim_steps += mon.total();
@@ -792,6 +833,7 @@ struct FsWorld {
     if (passes == budget) ctx.stats.inc(reported ? "probe_budget_exhausted" : "probe_budget_exactly_enough_no_error");
     // was rewriting still possible?  one more pass on the output tells
     WorkMonitor mon2; mon2.budget = 1; mon2.ndefs_bound = mon.ndefs_bound; mon2.scan_tokens = mon.scan_tokens; mon2.bytes = mon.bytes;
+    if (big) { mon2.pass_cost_cap = (long long)4e18; g_pass_cost_cap = (long long)4e18; }
     MacroApplicationResult again;
     {
       HookGuard hg(&mon2);
@@ -799,6 +841,7 @@ struct FsWorld {
       try { again = Theo::apply_macros(res.transformed_sequence, mer.macros, 1); } catch (SimAbort &) {}
       set_phase(PH_HARNESS);
     }
+    g_pass_cost_cap = keep_cap;
     bool still = false;
     for (auto &e : again.errors) if (e.t == ParseError::MACRO_APPLY_REACHED_MAX_PASSES) still = true;
     ctx.ev("still_rewritable", still, reported);
@@ -869,7 +912,7 @@ Project valid_project(Rng &rng, bool thorough, unsigned macros, bool boundary) {
   Project p;
   p.has_ast = true;
   p.ast = generate_ast(rng, gp);
-  p.layout.seed = rng.next(); p.layout.style = rng.chance(2, 3) ? 0 : 1; p.layout.nfiles = rng.chance(1, 2) ? 1 : (int)rng.range(2, 4); p.layout.spelling = (int)rng.below(4);
+  p.layout.seed = rng.next(); p.layout.style = rng.chance(2, 3) ? 0 : 1; p.layout.nfiles = rng.chance(1, 2) ? 1 : (int)rng.range(2, 4); p.layout.spelling = (int)rng.below(4); p.layout.naming = (p.layout.seed >> 9) % 4 == 0 ? 1 : 0;
   render(p);
   return p;
 }
@@ -906,6 +949,7 @@ Plan gen_incl_plan(Rng &rng, long long sub, bool thorough) {
   for (int i = 0; i < nfiles; i++) {
     std::string n = i == 0 ? "main.theo" : "f" + std::to_string(i);
     if (rng.chance(1, 12)) n = ODD_NAMES[rng.below(8)];
+    else if (i > 0 && rng.chance(1, 5)) n = names[rng.below(names.size())] + (rng.chance(1, 2) ? "_ext" : "0");   // a name that extends another file's name
     if (i == 0 && n == "__standards__") n = "main.theo";   // the main file itself is never given the reserved name
     if (std::find(names.begin(), names.end(), n) != names.end()) n += std::to_string(i);
     names.push_back(n);
@@ -974,6 +1018,20 @@ Plan gen_macro_plan(Rng &rng, bool thorough) {
   std::string text;
   bool divergent = false, dup = false, cheap = false, family = false;
   int w = (int)rng.below(100);
+  if (rng.chance(1, thorough ? 150 : 250)) {
+    // large-stream regime: a self-reproducing macro with a long body, and a budget under which the stream reaches 70-95 thousand tokens
+    int nst = (int)rng.range(100, 300);
+    text = "DEFINE a AS a";
+    for (int i = 0; i < nst; i++) text += " ; x := " + std::to_string(i % 7);
+    text += " END DEFINE\na";
+    long long target = rng.range(70000, 95000);
+    p.knobs["budget"] = target / (4 * nst) + 1;
+    p.knobs["divergent"] = 1; p.knobs["growing"] = 1; p.knobs["big"] = 1;
+    p.note = "macro family, large stream";
+    p.proj.files["main.theo"] = text;
+    p.proj.main = "main.theo";
+    return p;
+  }
   if (w < 70) {
     const MacroFam &f = MACRO_FAMS[rng.below(N_FAMS)];
     divergent = f.divergent; dup = f.dup_slot; cheap = f.cheap; family = true;
@@ -1048,6 +1106,7 @@ Plan gen_fs_plan(const std::string &prop, Rng &rng, long long sub, const std::st
     unsigned macros = rng.chance(1, 2) ? ((unsigned)rng.below(16) | (rng.chance(1, 3) ? (unsigned)MF_TWICE : 0u) | (rng.chance(1, 3) ? (unsigned)MF_ARITH : 0u)) : 0;
     p.proj = valid_project(rng, thorough, macros, false);
     Op o; o.k = "lit_inflate"; o.a = (long long)rng.below(64); o.b = rng.chance(1, 3) ? 10 : rng.range(11, 40); o.c = rng.chance(1, 2);
+    p.knobs["body_lits"] = 1;
     if ((macros & (MF_CALL | MF_SWAP | MF_ITE)) && rng.chance(1, 3)) { o.k = "slot_inflate"; o.b = (long long)rng.below(5); }
     p.ops.push_back(o);
     p.note = "literal inflation";
